@@ -21,6 +21,9 @@ impl Handler<Ask> for A1 { async fn handle(&mut self, _: &mut Context<Self>, _: 
 impl Actor for R1 {}
 impl RestartableActor for R1 {}
 impl Handler<Ping> for R1 { async fn handle(&mut self, _: &mut Context<Self>, _: Ping) {} }
+struct U1;                       // handles the unit message (can be a plain child)
+impl Actor for U1 {}
+impl Handler<()> for U1 { async fn handle(&mut self, _: &mut Context<Self>, _: ()) {} }
 struct NoDef;                    // restartable, not Default
 impl Actor for NoDef {}
 impl RestartableActor for NoDef {}
@@ -56,6 +59,10 @@ w("h13", H, "Context::weak_sender", "E0277", "fn w(ctx: &Context<A1>) {", "let _
 w("h14", H, "Context::weak_caller", "E0277", "fn w(ctx: &Context<A1>) {", "let _ = ctx.weak_caller::<Other, ()>();", "let _ = ctx.weak_caller::<Ask, u32>();")
 w("h15", H, "Context::interval", "E0277", "fn w(ctx: &mut Context<A1>) {", "ctx.interval(Other, Duration::from_secs(1));", "ctx.interval(Ping, Duration::from_secs(1));")
 w("h16", H, "Context::subscribe", "E0277", "async fn w(ctx: &mut Context<A1>) {", "let _ = ctx.subscribe::<Other>().await;", "let _ = ctx.subscribe::<Ping>().await;")
+w("h17", H, "Context::register_child", "E0277", "fn w(ctx: &mut Context<A1>, child: Addr<A1>) {", "ctx.register_child::<Other>(child);", "ctx.register_child::<Ping>(child);")
+w("h18", H, "Context::add_child(Addr)", "E0277", "fn w(ctx: &mut Context<A1>, a1: Addr<A1>, u1: Addr<U1>) {", "ctx.add_child(a1);", "ctx.add_child(u1);")
+w("h19", H, "Context::add_child(OwningAddr)", "E0277", "fn w(ctx: &mut Context<A1>, a1: OwningAddr<A1>, u1: Addr<U1>) {", "ctx.add_child(a1);", "ctx.add_child(u1);")
+w("h20", H, "Context::add_child(Sender)", "E0277", "fn w(ctx: &mut Context<A1>, s1: Sender<Ping>, u1: Sender<()>) {", "ctx.add_child(s1);", "ctx.add_child(u1);")
 
 U = "fire-and-forget needs Response = ()"
 w("u01", U, "Addr::send", "E0271", "async fn w(a: Addr<A1>) {", "let _ = a.send(Ask).await;", "let _ = a.send(Ping).await;")
